@@ -13,6 +13,25 @@
 //#include <type_traits>
 #include "mpi_dispatcher.hpp"
 
+#ifdef POMEROL_VERIF
+#include <cstdlib>
+#include <unistd.h>
+namespace pMPI {
+// Verification hook (off unless compiled with -DPOMEROL_VERIF and POMEROL_VERIF_MAXUS is set in the environment):
+// a pseudo-random delay before each job so that the dynamic job-to-rank assignment differs between runs.
+inline void verif_job_delay(int rank, int job) {
+    static const char* mx = std::getenv("POMEROL_VERIF_MAXUS");
+    static const char* sd = std::getenv("POMEROL_VERIF_SEED");
+    if (!mx) return;
+    unsigned long maxus = std::strtoul(mx, 0, 10);
+    if (!maxus) return;
+    unsigned long x = (sd ? std::strtoul(sd, 0, 10) : 1ul) * 2654435761ul + (unsigned long)rank * 40503ul + (unsigned long)job * 2246822519ul;
+    x ^= x >> 13; x *= 1274126177ul; x ^= x >> 16;
+    usleep(x % maxus);
+}
+}
+#endif
+
 namespace pMPI {
 
 template <typename PartType>
@@ -72,6 +91,9 @@ std::map<pMPI::JobId, pMPI::WorkerId> mpi_skel<WrapType>::run(const boost::mpi::
             JobId p = worker.current_job();
             if (VerboseOutput) std::cout << "["<<p+1<<"/"<<parts.size()<< "] P" << comm.rank() 
                                          << " : part " << p << " [" << parts[p].complexity << "] run;" << std::endl;
+#ifdef POMEROL_VERIF
+            pMPI::verif_job_delay(rank, p);
+#endif
             parts[p].run(); 
             worker.report_job_done(); 
         };
